@@ -59,9 +59,11 @@ func main() {
 	defer m.Close()
 
 	mwCampaign(o, r, m)
+	tableCampaign(r, m)
 	apiCampaign(o, r, m)
 	stackCampaign(o, r, m)
 	seededCases(r, m)
+	wireCampaign(r, m)
 
 	r.ModelOps = len(m.Log)
 	r.Finish()
@@ -205,9 +207,52 @@ type request struct {
 	remote netip.AddrPort
 	qname  string
 	qtype  uint16
+	qclass uint16
 	loc    *geoip.Location
+	// ecsLoc is the location of the ECS subnet address: GeoIP answers per
+	// address, and the access decision must use the client's location only.
+	ecsLoc *geoip.Location
 	ecs    int    // 0 none, 1 well-formed, 2 malformed
 	dev    string // nil | empty | auth | unk | err | ok:<k>
+	// badDevID adds a dnsmasq CPE-ID option that is not a valid device ID: the
+	// real device finder of a plain-DNS server fails on it.
+	badDevID bool
+	// packable: see malform.
+	packable bool
+}
+
+// ecsAddr is the address inside the ECS option of generated requests.
+var ecsAddr = netip.MustParseAddr("198.51.100.0")
+
+// geoFor is the fake GeoIP database for one request.
+func (q *request) geoFor(ip netip.Addr) *geoip.Location {
+	if ip == ecsAddr {
+		return q.ecsLoc
+	}
+
+	return q.loc
+}
+
+// malform makes the ECS option e one that dnsmsg.ECSFromMsg rejects: a source
+// prefix length beyond the family's, or — when the message has to survive
+// packing for a real socket — address bits set beyond the prefix.
+func (q *request) malform(e *dns.EDNS0_SUBNET) {
+	if q.packable {
+		// (miekg/dns masks the address while packing: wireCampaign sets the stray bit in
+		// the packed bytes.)
+		e.SourceNetmask, e.Address = 23, net.IP{198, 51, 101, 0}
+
+		return
+	}
+	e.SourceNetmask = 33
+}
+
+func (q *request) class() uint16 {
+	if q.qclass == 0 {
+		return dns.ClassINET
+	}
+
+	return q.qclass
 }
 
 // eff is the address the middleware sees: the transport layer unmaps 4in6
@@ -220,19 +265,33 @@ func (q *request) line() string {
 		asn = fmt.Sprint(q.loc.ASN)
 	}
 
-	return fmt.Sprintf("req %s %d %s %d %s %s %s", addrArgs(q.eff()), q.remote.Port(), q.qname, q.qtype, asn, b2s(q.ecs == 2), q.dev)
+	return fmt.Sprintf("req %s %d %s %d %d %s %d %s", addrArgs(q.eff()), q.remote.Port(), q.qname, q.qtype, q.class(), asn, q.ecs, q.dev)
 }
 
 func (q *request) msg() *dns.Msg {
 	m := &dns.Msg{}
 	m.Id = 77
 	m.RecursionDesired = true
-	m.Question = []dns.Question{{Name: q.qname, Qtype: q.qtype, Qclass: dns.ClassINET}}
+	m.Question = []dns.Question{{Name: q.qname, Qtype: q.qtype, Qclass: q.class()}}
+	if q.badDevID {
+		o := &dns.OPT{Hdr: dns.RR_Header{Name: ".", Rrtype: dns.TypeOPT, Class: 1232}}
+		o.Option = append(o.Option, &dns.EDNS0_LOCAL{Code: 65074, Data: []byte("!not a device id!")})
+		if q.ecs != 0 {
+			e := &dns.EDNS0_SUBNET{Code: dns.EDNS0SUBNET, Family: 1, SourceNetmask: 24, Address: net.IP{198, 51, 100, 0}}
+			if q.ecs == 2 {
+				q.malform(e)
+			}
+			o.Option = append(o.Option, e)
+		}
+		m.Extra = append(m.Extra, o)
+
+		return m
+	}
 	if q.ecs != 0 {
 		o := &dns.OPT{Hdr: dns.RR_Header{Name: ".", Rrtype: dns.TypeOPT, Class: 1232}}
 		e := &dns.EDNS0_SUBNET{Code: dns.EDNS0SUBNET, Family: 1, SourceNetmask: 24, Address: net.IP{198, 51, 100, 0}}
 		if q.ecs == 2 {
-			e.SourceNetmask = 33
+			q.malform(e)
 		}
 		o.Option = append(o.Option, e)
 		m.Extra = append(m.Extra, o)
@@ -418,6 +477,12 @@ func sigSuffix(v verdict, q *request) string {
 	}
 	if q.qname == "." {
 		s += "+root"
+	}
+	if q.dev == "err" {
+		s += "+device-error"
+	}
+	if q.qclass != 0 {
+		s += "+class"
 	}
 
 	return s
@@ -715,10 +780,14 @@ func genRequest(rng *rand.Rand, c *cfg, devs []string) (q *request) {
 		qname:  genName(rng, c.allRules()),
 		qtype:  qtypePool[rng.IntN(len(qtypePool))],
 		loc:    genLoc(rng, c),
+		ecsLoc: genLoc(rng, c),
 		dev:    devs[rng.IntN(len(devs))],
 	}
+	if rng.IntN(8) == 0 {
+		q.qclass = []uint16{dns.ClassCHAOS, dns.ClassHESIOD, dns.ClassANY, dns.ClassNONE, dns.ClassCSNET}[rng.IntN(5)]
+	}
 	switch rng.IntN(12) {
-	case 0:
+	case 0, 3:
 		q.ecs = 1
 	case 1, 2:
 		q.ecs = 2
@@ -760,7 +829,30 @@ type fixture struct {
 
 	nextCalls, limCalls, countCalls int
 	nextHadRI                       bool
+	// nextRI is a copy of the request information the next stage found in its
+	// context.
+	nextRI *agd.RequestInfo
+	// cur is the request being served (for the per-address GeoIP fake).
+	cur *request
+	// Traces outside the next handler: calls of the profiles' rate limiters and
+	// errors reported to the error collector.
+	profRL, errColl int
 }
+
+// countingRL is a profile rate limiter that defers to the global one and
+// counts how often it is consulted: its counters are state that other requests
+// of the profile depend on, so a rejected request must not touch it.
+type countingRL struct{ n *int }
+
+var _ agd.Ratelimiter = countingRL{}
+
+func (c countingRL) Check(context.Context, *dns.Msg, netip.Addr) agd.RatelimitResult {
+	*c.n++
+
+	return agd.RatelimitResultUseGlobal
+}
+func (c countingRL) Config() *agd.RatelimitConfig                         { return &agd.RatelimitConfig{} }
+func (c countingRL) CountResponses(context.Context, *dns.Msg, netip.Addr) { *c.n++ }
 
 func newMessages() *dnsmsg.Constructor {
 	c, err := dnsmsg.NewConstructor(&dnsmsg.ConstructorConfig{
@@ -775,11 +867,15 @@ func newMessages() *dnsmsg.Constructor {
 	return c
 }
 
-func newProfile(k int, acc access.Profile) *agd.Profile {
+func newProfile(k int, acc access.Profile, rl agd.Ratelimiter) *agd.Profile {
+	if rl == nil {
+		rl = agd.GlobalRatelimiter{}
+	}
+
 	return &agd.Profile{
 		FilterConfig: &filter.ConfigClient{Custom: &filter.ConfigCustom{}, Parental: &filter.ConfigParental{},
 			RuleList: &filter.ConfigRuleList{}, SafeBrowsing: &filter.ConfigSafeBrowsing{}},
-		Access: acc, BlockingMode: &dnsmsg.BlockingModeNullIP{}, Ratelimiter: agd.GlobalRatelimiter{},
+		Access: acc, BlockingMode: &dnsmsg.BlockingModeNullIP{}, Ratelimiter: rl,
 		ID: agd.ProfileID(fmt.Sprintf("prof%d", k)), DeviceIDs: []agd.DeviceID{agd.DeviceID(fmt.Sprintf("dev%d", k))},
 		FilteredResponseTTL: 10 * time.Second, FilteringEnabled: true, QueryLogEnabled: true, IPLogEnabled: true,
 	}
@@ -793,10 +889,10 @@ func newDevice(k int, linked netip.Addr) *agd.Device {
 func newFixture(c *cfg, proto agd.Protocol) (f *fixture) {
 	f = &fixture{metrics: &recMetrics{}}
 	for k, p := range c.profs {
-		f.profs = append(f.profs, newProfile(k, access.NewDefaultProfile(p.conf())))
+		f.profs = append(f.profs, newProfile(k, access.NewDefaultProfile(p.conf()), countingRL{&f.profRL}))
 	}
 	geo := agdtest.NewGeoIP()
-	geo.OnData = func(string, netip.Addr) (*geoip.Location, error) { return f.loc, nil }
+	geo.OnData = func(_ string, ip netip.Addr) (*geoip.Location, error) { return f.cur.geoFor(ip), nil }
 	mw := dnssvc.VerifC10NewMw(&dnssvc.VerifC10MwConfig{
 		Logger:           slogutil.NewDiscardLogger(),
 		Messages:         newMessages(),
@@ -808,7 +904,7 @@ func newFixture(c *cfg, proto agd.Protocol) (f *fixture) {
 		DeviceFinder: &agdtest.DeviceFinder{OnFind: func(context.Context, *dns.Msg, netip.AddrPort, netip.AddrPort) agd.DeviceResult {
 			return f.dev
 		}},
-		ErrColl: &agdtest.ErrorCollector{OnCollect: func(context.Context, error) {}},
+		ErrColl: &agdtest.ErrorCollector{OnCollect: func(context.Context, error) { f.errColl++ }},
 		GeoIP:   geo,
 		Metrics: f.metrics,
 		Limiter: &agdtest.RateLimit{
@@ -824,7 +920,12 @@ func newFixture(c *cfg, proto agd.Protocol) (f *fixture) {
 	})
 	f.h = mw.Wrap(dnsserver.HandlerFunc(func(ctx context.Context, rw dnsserver.ResponseWriter, req *dns.Msg) error {
 		f.nextCalls++
-		_, f.nextHadRI = agd.RequestInfoFromContext(ctx)
+		var ri *agd.RequestInfo
+		ri, f.nextHadRI = agd.RequestInfoFromContext(ctx)
+		if ri != nil {
+			cp := *ri
+			f.nextRI = &cp
+		}
 		resp := (&dns.Msg{}).SetReply(req)
 		resp.Answer = append(resp.Answer, &dns.TXT{Hdr: dns.RR_Header{Name: req.Question[0].Name, Rrtype: dns.TypeTXT,
 			Class: dns.ClassINET, Ttl: 10}, Txt: []string{"from-next"}})
@@ -842,7 +943,7 @@ func (f *fixture) devResult(dev string) agd.DeviceResult {
 	case "nil":
 		return nil
 	case "empty":
-		return &agd.DeviceResultOK{Device: newDevice(99, netip.Addr{}), Profile: newProfile(99, access.EmptyProfile{})}
+		return &agd.DeviceResultOK{Device: newDevice(99, netip.Addr{}), Profile: newProfile(99, access.EmptyProfile{}, countingRL{&f.profRL})}
 	case "auth":
 		return &agd.DeviceResultAuthenticationFailure{Err: errDev}
 	case "unk":
@@ -865,12 +966,58 @@ type obs struct {
 	hadRI     bool
 	why       string
 	panicked  any
+	// ri is the request information the next stage received, rendered like the
+	// model renders it; dev is the device result in it.
+	ri              string
+	riDev           agd.DeviceResult
+	riLoc           *geoip.Location
+	profRL, errColl int
+}
+
+// riString renders the request-dependent part of a request information.
+func riString(ri *agd.RequestInfo) string {
+	asn := "-"
+	if ri.Location != nil {
+		asn = fmt.Sprint(ri.Location.ASN)
+	}
+	dev := "?"
+	switch ri.DeviceResult.(type) {
+	case nil:
+		dev = "nil"
+	case *agd.DeviceResultOK:
+		dev = "ok"
+	case *agd.DeviceResultAuthenticationFailure:
+		dev = "auth"
+	case *agd.DeviceResultUnknownDedicated:
+		dev = "unk"
+	case *agd.DeviceResultError:
+		dev = "err"
+	}
+
+	return fmt.Sprintf("[%s] %d %d %s %s %s %s", ri.Host, ri.QType, ri.QClass, addrArgs(ri.RemoteIP), asn, b2s(ri.ECS != nil), dev)
+}
+
+// refRI is the request information the statement's "processed normally" calls
+// for, written from the request as it was sent.
+func refRI(q *request) string {
+	asn := "-"
+	if q.loc != nil {
+		asn = fmt.Sprint(q.loc.ASN)
+	}
+	host := strings.ToLower(strings.TrimSuffix(q.qname, "."))
+	dev := q.dev
+	if strings.HasPrefix(dev, "ok") || dev == "empty" {
+		dev = "ok"
+	}
+
+	return fmt.Sprintf("[%s] %d %d %s %s %s %s", host, q.qtype, q.class(), addrArgs(q.eff()), asn, b2s(q.ecs == 1), dev)
 }
 
 func (f *fixture) serve(ctx context.Context, q *request) (o obs) {
-	f.dev, f.loc = f.devResult(q.dev), q.loc
+	f.dev, f.loc, f.cur = f.devResult(q.dev), q.loc, q
 	*f.metrics = recMetrics{}
-	f.nextCalls, f.limCalls, f.countCalls, f.nextHadRI = 0, 0, 0, false
+	f.nextCalls, f.limCalls, f.countCalls, f.nextHadRI, f.nextRI = 0, 0, 0, false, nil
+	f.profRL, f.errColl = 0, 0
 	rw := dnsserver.NewNonWriterResponseWriter(net.UDPAddrFromAddrPort(netip.MustParseAddrPort("192.0.2.2:53")),
 		net.UDPAddrFromAddrPort(q.remote))
 	func() {
@@ -878,6 +1025,10 @@ func (f *fixture) serve(ctx context.Context, q *request) (o obs) {
 		o.err = f.h.ServeDNS(ctx, rw, q.msg())
 	}()
 	o.resp, o.next, o.lim, o.hadRI = rw.Msg(), f.nextCalls, f.limCalls, f.nextHadRI
+	o.profRL, o.errColl = f.profRL, f.errColl
+	if f.nextRI != nil {
+		o.ri, o.riDev, o.riLoc = riString(f.nextRI), f.nextRI.DeviceResult, f.nextRI.Location
+	}
 	m := f.metrics
 	switch {
 	case m.bySubnet > 0:
@@ -915,7 +1066,12 @@ func (o *obs) canon() string {
 		eff = "?"
 	}
 
-	return fmt.Sprintf("%s %s %s", o.why, eff, b2s(o.err != nil))
+	info := ""
+	if o.ri != "" {
+		info = " | " + o.ri
+	}
+
+	return fmt.Sprintf("%s %s %s%s", o.why, eff, b2s(o.err != nil), info)
 }
 
 // judge is the property oracle for one request on the real middleware.
@@ -937,6 +1093,15 @@ func judge(r *hlib.Result, campaign string, c *cfg, q *request, o *obs, replay f
 			r.Violate("blocked-request-reached-next:"+suffix, fmt.Sprintf("%s: the property rejects this request (%s) but it reached "+
 				"a later stage (next handler calls %d, rate limiter calls %d)", campaign, v.class, o.next, o.lim), replay())
 		}
+		if o.err != nil {
+			// The server answers a handler error with SERVFAIL (and logs and reports it).
+			r.Violate("blocked-request-answered:"+suffix+"+handler-error", fmt.Sprintf("%s: the property rejects this request (%s) but the "+
+				"handler returned an error, which the server answers with SERVFAIL: %v", campaign, v.class, o.err), replay())
+		}
+		if o.profRL != 0 || o.errColl != 0 {
+			r.Violate("blocked-request-left-trace:"+suffix, fmt.Sprintf("%s: the property rejects this request (%s) but it left a trace: "+
+				"profile rate limiter calls %d, errors reported %d", campaign, v.class, o.profRL, o.errColl), replay())
+		}
 
 		return v
 	}
@@ -955,6 +1120,10 @@ func judge(r *hlib.Result, campaign string, c *cfg, q *request, o *obs, replay f
 			r.Violate("unblocked-request-dropped:"+suffix, fmt.Sprintf("%s: no rule rejects this request (%s) but it was not processed "+
 				"normally: next handler calls %d, response %v, request info in context %v, err %v", campaign, v.class, o.next,
 				o.resp != nil, o.hadRI, o.err), replay())
+		} else if want := refRI(q); o.ri != want || o.riLoc != q.loc {
+			r.Violate("unblocked-request-wrong-info:"+suffix, fmt.Sprintf("%s: the next stage received request information [host qtype "+
+				"qclass family addr asn ecs device] %q (location is the client's: %v), the request says %q", campaign, o.ri, o.riLoc == q.loc,
+				want), replay())
 		}
 	}
 
@@ -999,8 +1168,10 @@ func runMwCase(r *hlib.Result, m *hlib.Model, campaign string, c *cfg, qs []*req
 			ob.lim = 0
 		}
 		v := judge(r, campaign, c, q, &ob, func() any {
+			// The whole history of the case up to the failing request: the middleware pools
+			// its request information, so an earlier request may matter.
 			return map[string]any{"campaign": campaign, "config": c.describe(), "request": q.line(), "remote": q.remote.String(),
-				"observed": ob.canon(), "ops": append(append([]string{}, lines[:pre]...), lines[pre+j])}
+				"observed": ob.canon(), "failing_request_index": j, "ops": append([]string{}, lines[:pre+j+1]...)}
 		})
 		r.Count(campaign + ".real." + ob.why)
 		if v.blocked {
@@ -1013,7 +1184,7 @@ func runMwCase(r *hlib.Result, m *hlib.Model, campaign string, c *cfg, qs []*req
 	for j := range got {
 		if got[j] != answers[j] {
 			r.Disagree(campaign, fmt.Sprintf("%s: real=%q model=%q for %q", campaign, got[j], answers[j], lines[pre+j]),
-				map[string]any{"campaign": campaign, "config": c.describe(), "ops": append(append([]string{}, lines[:pre]...), lines[pre+j])})
+				map[string]any{"campaign": campaign, "config": c.describe(), "failing_request_index": j, "ops": append([]string{}, lines[:pre+j+1]...)})
 
 			break
 		}
@@ -1037,6 +1208,69 @@ func truncate(s []string, n int) []string {
 }
 
 // ---------------------------------------------------------------------------
+// Campaign table: the complete decision table of the handler
+// ---------------------------------------------------------------------------
+
+// tableCampaign realises every combination of the atoms the handler's decision
+// depends on — address family; client in a globally blocked subnet; name blocked
+// by a global rule; profile: allowed ASN, allowed subnet, blocked ASN, blocked
+// subnet, blocked name; device-finder result; ECS option absent / well-formed /
+// malformed; source port zero or not; client location known or not — with a
+// concrete configuration and request, and runs each through the real
+// middleware, the model and the oracle.
+func tableCampaign(r *hlib.Result, m *hlib.Model) {
+	pp := netip.MustParsePrefix
+	n := 0
+	for code := 0; code < 1<<8; code++ {
+		bit := func(i int) bool { return code>>i&1 == 1 }
+		v4, gIP, gName := bit(0), bit(1), bit(2)
+		aASN, aNet, bASN, bNet, pName := bit(3), bit(4), bit(5), bit(6), bit(7)
+		client, inside, outside := "10.1.2.3", pp("10.1.2.0/25"), pp("10.1.2.128/25")
+		if !v4 {
+			client, inside, outside = "2001:db8:1::1", pp("2001:db8:1::/65"), pp("2001:db8:1:0:8000::/65")
+		}
+		pick := func(in bool) []netip.Prefix {
+			if in {
+				return []netip.Prefix{outside, inside}
+			}
+
+			return []netip.Prefix{outside}
+		}
+		asns := func(in bool) []geoip.ASN {
+			if in {
+				return []geoip.ASN{9, 7}
+			}
+
+			return []geoip.ASN{9}
+		}
+		c := &cfg{gnets: pick(gIP), grules: []rule{{kind: 'n', dom: "other.test", tsel: "all"}}}
+		if gName {
+			c.grules = append(c.grules, rule{kind: 'n', dom: "blk.test", tsel: "all"})
+		}
+		p := &pcfg{an: pick(aNet), bn: pick(bNet), aa: asns(aASN), ba: asns(bASN)}
+		if pName {
+			p.rules = []rule{{kind: 'n', dom: "X.blk.test", tsel: "only", t: dns.TypeA}}
+		}
+		c.profs = []*pcfg{p, {}}
+		var qs []*request
+		for _, dev := range []string{"nil", "empty", "auth", "unk", "err", "ok:0"} {
+			for ecs := 0; ecs < 3; ecs++ {
+				for _, port := range []uint16{0, 4000} {
+					for _, loc := range []*geoip.Location{nil, {ASN: 7}} {
+						qs = append(qs, &request{remote: netip.AddrPortFrom(netip.MustParseAddr(client), port), qname: "x.Blk.test.",
+							qtype: dns.TypeA, loc: loc, ecsLoc: &geoip.Location{ASN: 9}, ecs: ecs, dev: dev})
+					}
+				}
+			}
+		}
+		n += len(qs)
+		runMwCase(r, m, "table", c, qs, agd.ProtoDNS)
+	}
+	r.Notes = append(r.Notes, fmt.Sprintf("table: all 256 combinations of {family, global subnet, global name, profile allowed/blocked ASN, "+
+		"allowed/blocked subnet, blocked name} x 6 device results x 3 ECS states x port zero/non-zero x location known/unknown = %d requests", n))
+}
+
+// ---------------------------------------------------------------------------
 // Campaign api: the access package directly
 // ---------------------------------------------------------------------------
 
@@ -1055,6 +1289,18 @@ func apiCampaign(o *hlib.Opts, r *hlib.Result, m *hlib.Model) {
 	}
 }
 
+// guarded calls f, which runs real code that must not panic, and reports a panic
+// as a violation instead of letting it kill the harness.
+func guarded(r *hlib.Result, what string, replay func() any, f func() bool) (b bool) {
+	defer func() {
+		if p := recover(); p != nil {
+			r.Violate("panic:api", fmt.Sprintf("api: %s panicked: %v", what, p), replay())
+		}
+	}()
+
+	return f()
+}
+
 func runAPICase(r *hlib.Result, m *hlib.Model, rng *rand.Rand, c *cfg, nq int) {
 	g := c.global()
 	p := access.NewDefaultProfile(c.profs[0].conf())
@@ -1071,7 +1317,7 @@ func runAPICase(r *hlib.Result, m *hlib.Model, rng *rand.Rand, c *cfg, nq int) {
 		switch rng.IntN(3) {
 		case 0:
 			line := "gip " + addrArgs(ip)
-			b := g.IsBlockedIP(ip)
+			b := guarded(r, line, func() any { return replay(line) }, func() bool { return g.IsBlockedIP(ip) })
 			if want := refInNets(c.gnets, ip); b != want {
 				r.Violate(fmt.Sprintf("global-subnet-verdict:want-%v", want), fmt.Sprintf("api: Global.IsBlockedIP(%v) = %v with blocked subnets %v",
 					ip, b, c.gnets), replay(line))
@@ -1082,7 +1328,7 @@ func runAPICase(r *hlib.Result, m *hlib.Model, rng *rand.Rand, c *cfg, nq int) {
 			// The middleware hands over NormalizeQueryDomain(q.Name).
 			host := refHost(q.qname)
 			line := fmt.Sprintf("ghost %s %d", host, q.qtype)
-			b := g.IsBlockedHost(host, q.qtype)
+			b := guarded(r, line, func() any { return replay(line) }, func() bool { return g.IsBlockedHost(host, q.qtype) })
 			if want := refNameBlocked(c.grules, q.qname, q.qtype); b != want {
 				r.Violate(fmt.Sprintf("global-name-verdict:want-%v", want), fmt.Sprintf("api: Global.IsBlockedHost(%q, %d) = %v with rules %v",
 					host, q.qtype, b, c.describe()["global_blocked_rules"]), replay(line))
@@ -1095,7 +1341,7 @@ func runAPICase(r *hlib.Result, m *hlib.Model, rng *rand.Rand, c *cfg, nq int) {
 				asn = fmt.Sprint(q.loc.ASN)
 			}
 			line := fmt.Sprintf("pblk 0 %s %s %s %d", addrArgs(ip), asn, q.qname, q.qtype)
-			b := p.IsBlocked(q.msg(), netip.AddrPortFrom(ip, 53), q.loc)
+			b := guarded(r, line, func() any { return replay(line) }, func() bool { return p.IsBlocked(q.msg(), netip.AddrPortFrom(ip, 53), q.loc) })
 			cc := &cfg{profs: c.profs}
 			v := refVerdict(cc, q)
 			if b != v.blocked {
@@ -1162,13 +1408,15 @@ func exhaustiveNets(r *hlib.Result, m *hlib.Model) {
 			ip := netip.MustParseAddr(as)
 			for _, l := range locs {
 				q := &request{remote: netip.AddrPortFrom(ip, 53), qname: "a.test.", qtype: dns.TypeA, loc: l, dev: "ok:0"}
-				b := real.IsBlocked(q.msg(), q.remote, l)
 				v := refVerdict(c, q)
 				asn := "-"
 				if l != nil {
 					asn = fmt.Sprint(l.ASN)
 				}
 				line := fmt.Sprintf("pblk 0 %s %s a.test. 1", addrArgs(ip), asn)
+				b := guarded(r, line, func() any {
+					return map[string]any{"campaign": "api-exhaustive", "config": c.describe(), "ops": append(append([]string{}, lines[:pre]...), line)}
+				}, func() bool { return real.IsBlocked(q.msg(), q.remote, l) })
 				if b != v.blocked {
 					r.Violate("profile-verdict:"+v.class, fmt.Sprintf("api/exhaustive: DefaultProfile.IsBlocked(from %v, %v) = %v, the statement "+
 						"says %v (%s)", ip, l, b, v.blocked, v.class),
@@ -1215,10 +1463,12 @@ func stackCampaign(o *hlib.Opts, r *hlib.Result, m *hlib.Model) {
 func runStackCase(r *hlib.Result, m *hlib.Model, rng *rand.Rand) {
 	ctx := context.Background()
 	c := genCfg(rng, 2)
+	profRL := 0
+	var cur *request
 	// Linked addresses 0..2 belong to profile 0, 3..5 to profile 1.
 	var profs []*agd.Profile
 	for k, p := range c.profs {
-		profs = append(profs, newProfile(k, access.NewDefaultProfile(p.conf())))
+		profs = append(profs, newProfile(k, access.NewDefaultProfile(p.conf()), countingRL{&profRL}))
 	}
 	pdb := stack.NotFoundProfileDB()
 	pdb.OnProfileByDeviceID = func(_ context.Context, id agd.DeviceID) (*agd.Profile, *agd.Device, error) {
@@ -1239,7 +1489,6 @@ func runStackCase(r *hlib.Result, m *hlib.Model, rng *rand.Rand) {
 
 		return nil, nil, profiledb.ErrDeviceNotFound
 	}
-	var loc *geoip.Location
 	limCalls := 0
 	cacheCfg := &dnssvc.CacheConfig{Type: dnssvc.CacheTypeNone}
 	cached := rng.IntN(2) == 0
@@ -1255,7 +1504,7 @@ func runStackCase(r *hlib.Result, m *hlib.Model, rng *rand.Rand) {
 		ProfileDB: pdb,
 		Servers:   []*agd.Server{srvDNS, srvDoT},
 		Cache:     cacheCfg,
-		GeoData:   func(string, netip.Addr) (*geoip.Location, error) { return loc, nil },
+		GeoData:   func(_ string, ip netip.Addr) (*geoip.Location, error) { return cur.geoFor(ip), nil },
 		RateLimit: &agdtest.RateLimit{
 			OnIsRateLimited: func(context.Context, *dns.Msg, netip.Addr) (bool, bool, error) {
 				limCalls++
@@ -1301,8 +1550,18 @@ func runStackCase(r *hlib.Result, m *hlib.Model, rng *rand.Rand) {
 			// The downstream stages of the fixture need a location for billing.
 			q.loc = &geoip.Location{Country: geoip.CountryAD, Continent: geoip.ContinentEU, ASN: 64512}
 		}
-		loc = q.loc
-		limCalls = 0
+		if rng.IntN(10) == 0 {
+			// Make the real device finder fail: a malformed device ID in the dnsmasq
+			// CPE-ID option (plain DNS) or in the TLS server name (DoT).
+			q.dev = "err"
+			if srv == srvDNS {
+				q.badDevID = true
+			} else {
+				tlsName = "not!a!device!id." + stack.DeviceDomain
+			}
+		}
+		cur = q
+		limCalls, profRL = 0, 0
 		before := st.Effects.Snapshot()
 		var out stack.Outcome
 		var panicked any
@@ -1322,7 +1581,7 @@ func runStackCase(r *hlib.Result, m *hlib.Model, rng *rand.Rand) {
 		replay := func() any {
 			return map[string]any{"campaign": "stack", "config": c.describe(), "request": line, "remote": q.remote.String(), "cache": cached,
 				"server": string(srv.Name), "tls_server_name": tlsName, "downstream_delta[upstream,querylog,billing,rulestat,dnsdb,filter_req,filter_resp]": fmt.Sprint(delta),
-				"ops": append(append([]string{}, lines[:pre]...), line)}
+				"ops": append(append([]string{}, lines...), line)}
 		}
 		v := refVerdict(c, q)
 		suffix := sigSuffix(v, q)
@@ -1337,10 +1596,20 @@ func runStackCase(r *hlib.Result, m *hlib.Model, rng *rand.Rand) {
 				r.Violate("blocked-request-answered:"+suffix, fmt.Sprintf("stack: the property rejects this request (%s) but the client "+
 					"received a response with rcode %d", v.class, out.Resp.Rcode), replay())
 			}
-			if touched || limCalls != 0 {
+			if touched || limCalls != 0 || profRL != 0 {
 				r.Violate("blocked-request-left-trace:"+suffix, fmt.Sprintf("stack: the property rejects this request (%s) but downstream "+
-					"counters moved: upstream,querylog,billing,rulestat,dnsdb,filter_req,filter_resp = %v, rate limiter calls %d",
-					v.class, delta, limCalls), replay())
+					"counters moved: upstream,querylog,billing,rulestat,dnsdb,filter_req,filter_resp = %v, rate limiter calls %d, profile "+
+					"rate limiter calls %d", v.class, delta, limCalls, profRL), replay())
+			}
+			if out.Err != nil {
+				r.Violate("blocked-request-answered:"+suffix+"+handler-error", fmt.Sprintf("stack: the property rejects this request (%s) but "+
+					"the handler returned an error, which the server answers with SERVFAIL: %v", v.class, out.Err), replay())
+			}
+		case q.dev == "err":
+			r.Count("stack.ref.unblocked.device-error")
+			if out.Err == nil || out.Resp != nil || touched {
+				r.Violate("unblocked-request-dropped:"+suffix, fmt.Sprintf("stack: no rule rejects this request with a malformed device ID: "+
+					"normal processing returns the device finder's error, but err=%v resp=%v downstream %v", out.Err, out.Resp != nil, delta), replay())
 			}
 		case q.ecs == 2:
 			r.Count("stack.ref.unblocked.formerr")
@@ -1360,7 +1629,9 @@ func runStackCase(r *hlib.Result, m *hlib.Model, rng *rand.Rand) {
 				r.Violate("blocked-request-cached:"+suffix, fmt.Sprintf("stack: first unblocked request for %s was not resolved upstream "+
 					"(upstream calls %d)", key, delta[0]), replay())
 			}
-			if q.profIdx() >= 0 && (delta[1] != 1 || delta[2] != 1) {
+			// (Only for the Internet class: what the later stages do with other classes is
+			// not this property's business.)
+			if q.profIdx() >= 0 && q.class() == dns.ClassINET && (delta[1] != 1 || delta[2] != 1) {
 				r.Violate("unblocked-request-not-logged:"+suffix, fmt.Sprintf("stack: profile request processed without exactly one query-log "+
 					"entry and billing record: %v", delta), replay())
 			}
@@ -1432,4 +1703,128 @@ func seededCases(r *hlib.Result, m *hlib.Model) {
 		{remote: ap("9.9.9.9:4000"), qname: "ok.test.", qtype: dns.TypeA, loc: nil, ecs: 2, dev: "nil"},
 	}
 	runMwCase(r, m, "seeded", c, qs, agd.ProtoDNS)
+}
+
+// ---------------------------------------------------------------------------
+// Campaign wire: a real dnsserver.ServerDNS on a loopback UDP socket
+// ---------------------------------------------------------------------------
+
+// wireCampaign puts the real middleware behind a real plain-DNS server and
+// sends a handful of datagrams from 127.0.0.2 (globally blocked) and 127.0.0.1:
+// whatever the server does with the handler's result — in particular, answering
+// a returned error with SERVFAIL — is then part of what is observed.  Only
+// positive evidence counts: a datagram that arrives for a rejected request is a
+// violation; a datagram that does not arrive in time proves nothing and is
+// ignored, so scheduling and load cannot produce a false alarm.
+func wireCampaign(r *hlib.Result, m *hlib.Model) {
+	c := &cfg{
+		gnets:  []netip.Prefix{netip.MustParsePrefix("127.0.0.2/32")},
+		grules: []rule{{kind: 'n', dom: "blk.test", tsel: "all"}},
+		profs:  []*pcfg{{ba: []geoip.ASN{42}}, {}},
+	}
+	f := newFixture(c, agd.ProtoDNS)
+	srv := dnsserver.NewServerDNS(dnsserver.ConfigDNS{
+		ConfigBase:     dnsserver.ConfigBase{Name: "verif-c10", Addr: "127.0.0.1:0", Handler: f.h, Network: dnsserver.NetworkUDP},
+		MaxUDPRespSize: dns.MaxMsgSize,
+	})
+	ctx := context.Background()
+	if err := srv.Start(ctx); err != nil {
+		r.Notes = append(r.Notes, "wire: could not start a loopback server, campaign skipped: "+err.Error())
+
+		return
+	}
+	defer func() { _ = srv.Shutdown(ctx) }()
+	dst := srv.LocalUDPAddr().(*net.UDPAddr)
+	l := func(a geoip.ASN) *geoip.Location { return &geoip.Location{ASN: a} }
+	probes := []*request{
+		{remote: netip.MustParseAddrPort("127.0.0.2:0"), qname: "ok.test.", qtype: dns.TypeA, dev: "nil"},
+		{remote: netip.MustParseAddrPort("127.0.0.2:0"), qname: "ok.test.", qtype: dns.TypeA, dev: "err"},
+		{remote: netip.MustParseAddrPort("127.0.0.2:0"), qname: "ok.test.", qtype: dns.TypeA, dev: "nil", ecs: 2},
+		{remote: netip.MustParseAddrPort("127.0.0.1:0"), qname: "x.blk.test.", qtype: dns.TypeA, dev: "err"},
+		{remote: netip.MustParseAddrPort("127.0.0.1:0"), qname: "ok.test.", qtype: dns.TypeA, loc: l(42), dev: "ok:0", ecs: 2},
+		{remote: netip.MustParseAddrPort("127.0.0.1:0"), qname: "ok.test.", qtype: dns.TypeA, loc: l(42), dev: "err"},
+		{remote: netip.MustParseAddrPort("127.0.0.1:0"), qname: "ok.test.", qtype: dns.TypeA, loc: l(7), dev: "ok:0"},
+		{remote: netip.MustParseAddrPort("127.0.0.1:0"), qname: "ok.test.", qtype: dns.TypeA, dev: "err"},
+		{remote: netip.MustParseAddrPort("127.0.0.1:0"), qname: "ok.test.", qtype: dns.TypeA, dev: "nil", ecs: 2},
+	}
+	lines := c.lines()
+	pre := len(lines)
+	var seen [][]int
+	for _, q := range probes {
+		conn, err := net.ListenUDP("udp4", &net.UDPAddr{IP: q.remote.Addr().AsSlice()})
+		if err != nil {
+			r.Notes = append(r.Notes, "wire: cannot bind "+q.remote.Addr().String()+", campaign skipped: "+err.Error())
+
+			return
+		}
+		q.remote, q.packable = conn.LocalAddr().(*net.UDPAddr).AddrPort(), true
+		f.dev, f.loc, f.cur = f.devResult(q.dev), q.loc, q
+		buf, err := q.msg().Pack()
+		hlib.Must(err)
+		if q.ecs == 2 {
+			// Family 1, source prefix length 23, scope 0, address 198.51.100 -> 198.51.101.
+			buf = bytes.Replace(buf, []byte{0, 1, 23, 0, 198, 51, 100}, []byte{0, 1, 23, 0, 198, 51, 101}, 1)
+		}
+		_, err = conn.WriteToUDP(buf, dst)
+		hlib.Must(err)
+		v := refVerdict(c, q)
+		var rcodes []int
+		in := make([]byte, 4096)
+		// First datagram: wait generously when one is expected, briefly otherwise; any
+		// further ones follow immediately.
+		wait := 150 * time.Millisecond
+		if !v.blocked {
+			wait = 2 * time.Second
+		}
+		for {
+			_ = conn.SetReadDeadline(time.Now().Add(wait))
+			n, _, rerr := conn.ReadFromUDP(in)
+			if rerr != nil {
+				break
+			}
+			resp := &dns.Msg{}
+			if resp.Unpack(in[:n]) == nil {
+				rcodes = append(rcodes, resp.Rcode)
+			}
+			wait = 100 * time.Millisecond
+		}
+		_ = conn.Close()
+		line := q.line()
+		lines = append(lines, line)
+		seen = append(seen, rcodes)
+		r.Count("wire.requests")
+		if v.blocked {
+			r.Count("wire.ref.blocked." + v.class)
+			if len(rcodes) > 0 {
+				r.Violate("blocked-request-answered:"+sigSuffix(v, q)+"+wire", fmt.Sprintf("wire: the property rejects this request (%s) but %d "+
+					"datagram(s) came back from the real server, rcodes %v", v.class, len(rcodes), rcodes),
+					map[string]any{"campaign": "wire", "config": c.describe(), "request": line, "remote": q.remote.String(),
+						"ops": append(append([]string{}, lines[:pre]...), line)})
+			}
+		} else {
+			r.Count(fmt.Sprintf("wire.ref.unblocked.rcodes%v", rcodes))
+		}
+	}
+	// Correspondence, positive evidence only: a datagram is a disagreement when the
+	// model says the wire stays empty, or when its rcode is not one the model allows.
+	answers := m.Batch(lines)[pre:]
+	for j, rc := range seen {
+		allowed := map[int]bool{}
+		switch {
+		case strings.Contains(answers[j], " N "):
+			allowed[dns.RcodeSuccess] = true
+		case strings.Contains(answers[j], " F "):
+			allowed[dns.RcodeFormatError], allowed[dns.RcodeServerFailure] = true, true
+		case strings.HasSuffix(strings.SplitN(answers[j], " |", 2)[0], " 1"):
+			allowed[dns.RcodeServerFailure] = true
+		}
+		for _, x := range rc {
+			if !allowed[x] {
+				r.Disagree("wire", fmt.Sprintf("wire: real server sent rcode %d, model=%q for %q", x, answers[j], lines[pre+j]),
+					map[string]any{"campaign": "wire", "config": c.describe(), "ops": append(append([]string{}, lines[:pre]...), lines[pre+j])})
+			}
+		}
+	}
+	r.Case("wire;"+strings.Join(lines, ";"), true)
+	r.Traces++
 }
